@@ -67,7 +67,7 @@ type snapshot struct {
 	answers []string
 }
 
-var c14Requests = []string{introspectionQuery, "{__typename}", "mutation {__typename}", `{__type(name: "T0") {name kind fields(includeDeprecated: true) {name}}}`, "{a b}"}
+var c14Requests = []string{introspectionQuery, introspectionQueryNoDep, "{__typename}", "mutation {__typename}", `{__type(name: "T0") {name kind fields(includeDeprecated: true) {name}}}`, "{a b}"}
 
 func snap(root *ggql.Root) (s snapshot, pan interface{}) {
 	defer func() {
